@@ -274,10 +274,10 @@ def run_valid(case, rec):
 
 def parts(ctx):
     ps = [
-        Part('valid', run_valid, strategy=gen.frontend_cases(), n=ctx.n(800, 30000), reduce=reduce_case,
-             budget_s=ctx.n(100, 3000)),
-        Part('mutate', run_variants, strategy=mutated(), n=ctx.n(2400, 80000), reduce=reduce_case,
-             budget_s=ctx.n(100, 3000)),
+        Part('valid', run_valid, strategy=gen.frontend_cases(), n=ctx.n(800, 10000), reduce=reduce_case,
+             budget_s=ctx.n(100, 1200)),
+        Part('mutate', run_variants, strategy=mutated(), n=ctx.n(2400, 30000), reduce=reduce_case,
+             budget_s=ctx.n(100, 1200)),
         Part('short', make_run_short(textmut.SHORT_ALPHABET),
              enumerate=short_enum(ctx.n(3, 5), textmut.SHORT_ALPHABET), exhaustive=True, reduce=reduce_case),
         Part('langref', run_variants, enumerate=langref_enum, exhaustive=True, shards=4, reduce=reduce_case),
@@ -287,8 +287,8 @@ def parts(ctx):
         ps.append(Part('short_core6', make_run_short(textmut.CORE_ALPHABET),
                        enumerate=short_enum(6, textmut.CORE_ALPHABET), exhaustive=True))
     from . import c01
-    ps.append(Part('inject', accepts_variants(c01.run_inject_for_c03), strategy=c01.injected(), n=ctx.n(2500, 100000),
-                   budget_s=ctx.n(100, 3000), reduce=reduce_case))
+    ps.append(Part('inject', accepts_variants(c01.run_inject_for_c03), strategy=c01.injected(), n=ctx.n(2500, 40000),
+                   budget_s=ctx.n(100, 1200), reduce=reduce_case))
     return ps
 
 
